@@ -10,8 +10,8 @@ Definition repeatZ {A} (x : A) (n : Z) : list A := repeat x (Z.to_nat n).
 Definition num_f (_ : ty) (l : list value) : res value := Ok (VNum (DZ (zlen l))).
 Definition num_g (_ : option akind) (c : content) : res content :=
   do bc <- list_bounds c; Ok (np64 (lens_of (fst bc))).
-Definition num_model (axis : Z) (c : content) : res content := model_ax num_g (Ok (np64 [])) c axis.
-Definition num_spec (axis : Z) (t : ty) (vs : list value) : res (list value) := spec_ax num_f true (fun _ => true) t axis vs.
+Definition num_model (axis : Z) (c : content) : res content := model_ax num_g (Ok (np64 [])) true c axis.
+Definition num_spec (axis : Z) (t : ty) (vs : list value) : res (list value) := spec_ax num_f true (fun _ => true) true t axis vs.
 
 (* ---- local_index ---- *)
 Definition localindex_f (_ : ty) (l : list value) : res value :=
@@ -21,9 +21,9 @@ Definition localindex_g (_ : option akind) (c : content) : res content :=
   let lens := lens_of (fst bc) in
   Ok (ListOffset I64 (offsets_from 0 lens) (np64 (concat (map iota lens)))).
 Definition localindex_model (axis : Z) (c : content) : res content :=
-  model_ax localindex_g (Ok (np64 [])) c axis.
+  model_ax localindex_g (Ok (np64 [])) true c axis.
 Definition localindex_spec (axis : Z) (t : ty) (vs : list value) : res (list value) :=
-  spec_ax localindex_f true (fun _ => true) t axis vs.
+  spec_ax localindex_f true (fun _ => true) true t axis vs.
 
 (* ---- pad_none ---- *)
 Definition rpad_f (target : Z) (_ : ty) (l : list value) : res value :=
@@ -44,10 +44,55 @@ Definition rpadclip_g (target : Z) (_ : option akind) (c : content) : res conten
   let ixs := map (pad_index true target) (fst bc) in
   Ok (Regular (IndexedOption I64 (concat ixs) (snd bc)) target (zlen ixs)).
 Definition rpad_model (target axis : Z) (c : content) : res content :=
-  if target <? 0 then Err EValue else model_ax (rpad_g target) (Err EValue) c axis.
+  model_ax (rpad_g target) (Err EValue) true c axis.
 Definition rpad_spec (target axis : Z) (t : ty) (vs : list value) : res (list value) :=
-  if target <? 0 then Err EValue else spec_ax (rpad_f target) false (fun _ => true) t axis vs.
+  spec_ax (rpad_f target) false (fun _ => true) true t axis vs.
 Definition rpadclip_model (target axis : Z) (c : content) : res content :=
-  if target <? 0 then Err EValue else model_ax (rpadclip_g target) (Err EValue) c axis.
+  if target <? 0 then Err EValue else model_ax (rpadclip_g target) (Err EValue) true c axis.
 Definition rpadclip_spec (target axis : Z) (t : ty) (vs : list value) : res (list value) :=
-  if target <? 0 then Err EValue else spec_ax (rpadclip_f target) false (fun _ => true) t axis vs.
+  if target <? 0 then Err EValue else spec_ax (rpadclip_f target) false (fun _ => true) true t axis vs.
+
+(* ---- combinations ---- *)
+(* itertools.combinations / combinations_with_replacement *)
+Fixpoint combs {A} (n : nat) (l : list A) : list (list A) :=
+  match n with
+  | O => [[]]
+  | S k =>
+      (fix go (l : list A) : list (list A) :=
+         match l with
+         | [] => []
+         | x :: xs => map (cons x) (combs k xs) ++ go xs
+         end) l
+  end.
+Fixpoint combs_r {A} (n : nat) (l : list A) : list (list A) :=
+  match n with
+  | O => [[]]
+  | S k =>
+      (fix go (l : list A) : list (list A) :=
+         match l with
+         | [] => []
+         | x :: xs => map (cons x) (combs_r k (x :: xs)) ++ go xs
+         end) l
+  end.
+Definition combos {A} (repl : bool) (n : Z) (l : list A) : list (list A) :=
+  if repl then combs_r (Z.to_nat n) l else combs (Z.to_nat n) l.
+
+Definition comb_f (n : Z) (repl : bool) (_ : ty) (l : list value) : res value :=
+  Ok (VList (map VTup (combos repl n l))).
+
+(* transpose a list of n-tuples of positions into n index columns *)
+Fixpoint columns (n : nat) (tuples : list (list Z)) : list (list Z) :=
+  match n with
+  | O => []
+  | S k => map (fun t => hd 0 t) tuples :: columns k (map (@tl Z) tuples)
+  end.
+Definition comb_g (n : Z) (repl : bool) (_ : option akind) (c : content) : res content :=
+  do bc <- list_bounds c;
+  let per_list := map (fun ab : Z * Z => combos repl n (range (fst ab) (snd ab))) (fst bc) in
+  let cols := columns (Z.to_nat n) (concat per_list) in
+  Ok (ListOffset I64 (offsets_from 0 (map zlen per_list))
+        (Record (map (fun col => Indexed I64 col (snd bc)) cols) None (zlen (concat per_list)))).
+Definition comb_model (n : Z) (repl : bool) (axis : Z) (c : content) : res content :=
+  if n <? 1 then Err EValue else model_ax (comb_g n repl) (Ok Empty) false c axis.
+Definition comb_spec (n : Z) (repl : bool) (axis : Z) (t : ty) (vs : list value) : res (list value) :=
+  if n <? 1 then Err EValue else spec_ax (comb_f n repl) true (fun _ => true) false t axis vs.
